@@ -396,6 +396,8 @@ func runC08(p *Program, r *Report) {
 	checkGeometryConsistent(p, r, "R08d", []*ssa.Function{e})
 	checkEmptyForestHasNoPositions(p, r, "R08e", e)
 	checkTwinParentInOrder(p, r, "R08f")
+	r.Rule("R08h", "SLOT-CACHE-NOT-PERMUTED: a slice filled slot by slot from another list is not read again after that list (or the struct holding it) was sorted or handed to a method that may insert or delete")
+	checkSlotCacheNotPermuted(p, r, "R08h", []string{"(*Proof).Undo", "(*Proof).Update"})
 
 	r.Rule("R08c", "INVERSE-ORDER: the cached-proof undo reverts the additions of the block before its deletions, and reverts the deletions for the leaf count the forest had before the additions (numLeaves - numAdds)")
 	key := "(*Proof).Undo/inverse-order"
